@@ -287,15 +287,23 @@ impl<H, T> HeaderSliceWithLengthProtected<H, T> {
     }
 }
 
+// Ordered as the header followed by the slice. The recorded length only breaks ties between
+// values that are otherwise equal, which keeps the ordering consistent with the derived `PartialEq`
+// (that one does compare the length); for a `ThinArc` it always equals the slice length.
 impl<H: PartialOrd, T: ?Sized + PartialOrd> PartialOrd for HeaderSlice<HeaderWithLength<H>, T> {
     fn partial_cmp(&self, other: &Self) -> Option<Ordering> {
-        (&self.header.header, &self.slice).partial_cmp(&(&other.header.header, &other.slice))
+        match (&self.header.header, &self.slice).partial_cmp(&(&other.header.header, &other.slice)) {
+            Some(Ordering::Equal) => self.header.length.partial_cmp(&other.header.length),
+            ord => ord,
+        }
     }
 }
 
 impl<H: Ord, T: ?Sized + Ord> Ord for HeaderSlice<HeaderWithLength<H>, T> {
     fn cmp(&self, other: &Self) -> Ordering {
-        (&self.header.header, &self.slice).cmp(&(&other.header.header, &other.slice))
+        (&self.header.header, &self.slice)
+            .cmp(&(&other.header.header, &other.slice))
+            .then_with(|| self.header.length.cmp(&other.header.length))
     }
 }
 
